@@ -891,6 +891,7 @@ pub fn c10_eval(h: &[Op], seed: u64, dist: Option<&mut Dist>) -> Vec<Finding> {
     let mut nonread_status: Vec<String> = Vec::new();
     // a rejected call that changed the store is C05's subject; the comparison stops in front of it
     let mut desync_at: Option<usize> = None;
+    let mut waited_once = false;
     'outer: for op in h {
         let st = r1.step(op).status.clone();
         nonread_status.push(st.class());
@@ -902,7 +903,10 @@ pub fn c10_eval(h: &[Op], seed: u64, dist: Option<&mut Dist>) -> Vec<Finding> {
         let mut done = 0;
         for rd in reads {
             // calls that execute code wait (5 s) for the open block to be finalised: only plain queries mid-block
-            if !boundary && !matches!(rd, Op::Query { .. } | Op::GetLogs { .. }) { continue; }
+            // (one evaluation in eight lets ONE such call through: it must give up without touching the open block)
+            if !boundary && !matches!(rd, Op::Query { .. } | Op::GetLogs { .. }) {
+                if seed % 8 == 0 && !waited_once && matches!(rd, Op::EthCall { .. } | Op::EstimateGas { .. } | Op::Balance { .. }) { waited_once = true; } else { continue; }
+            }
             if done >= k { break; }
             done += 1;
             let out = r1.step(&rd).clone();
